@@ -11,7 +11,7 @@ from props import dbcommon
 ID = 'C14'
 HANG_CLAUSE = 'terminates'   # check.py: a case that does not return is a failing input of this clause
 CASE_TIMEOUT = 60             # wall seconds per case (check.py, SIGALRM); the module's own watchdog counts CPU time (SIGPROF)
-LEAN_MODULES = ['PybtexModel.Props.C14']
+LEAN_MODULES = ['PybtexModel.Props.C14', 'PybtexModel.Props.C14x']
 THEOREMS = {
     'C14_own_field_wins': "[model wiring] one unfolding of the model lookup (its first test is the entry's own field table): an own field is returned whatever the database and the visited set; the independent own-first claim is C14_inherits_nearest (the reference asks field, then role, of the entry before any parent)",
     'C14_inherits_nearest': 'a field the entry lacks is seen with the value of the first entry along the cross-reference chain that defines the field or role (model = reference lookup)',
@@ -21,6 +21,16 @@ THEOREMS = {
     'C14_dangling': 'lookup through a dangling reference gives missing, and resolution reports a bad cross-reference for every entry that goes into the bibliography (cited or appended)',
     'C14_engines_agree': '[model wiring] both model paths (Field.value / missing$ and the template field node) are the ONE model lookup in two wrappers: they agree by definition; proved content = that lookup is the reference lookup (C14_inherits_nearest); that both REAL engines go through Entry._find_field with the database is carried by the correspondence check (clause engines_agree)',
     'C14_python_names_partial': 'for a role the entry has ITSELF and no field of that name hides: the model names node returns its persons (conjunct 1: [model wiring], one unfolding of templateNames), and their joined names are the reference lookup and the BST value (via C14_inherits_nearest)',
+    'C14_loop_is_recursion': 'for every database (or none), visited set, entry and name: the model of the code as written now (Entry._find_field as a while-loop around the step function _find_crossref_entry; _find_crossref_field = one step + loop) returns what the recursive model findField returns, so every C14 theorem about findField holds of the loop; no hypothesis',
+    'C14_loop_inherits_nearest': 'well-formed database and entry: the loop started with the empty visited set equals the reference lookup (C14_loop_is_recursion + C14_inherits_nearest)',
+    'C14_step_is_parent': 'well-formed database and entry, nothing visited: _find_crossref_entry succeeds exactly when the reference parent exists, returns that entry and records exactly the lower-cased crossref text; without a database it always raises ([model wiring] for that last conjunct)',
+    'C14_visited_only_cuts': 'well-formed database and entry, ANY visited set: (1) what a lookup finds with a visited set it finds with every subset of it; (2) a value _find_field returns with any visited set is the reference value (it may be missing where the reference has one, never another value); (3) the same for _find_crossref_field on an entry that does not define the name itself',
+    'C14_constants_match': '[table tie] the constants the model hard-codes (the and-separator of _find_person_field, the field name crossref of _find_crossref_entry / add_entry / the BST variable, the empty default of visited, bib_data=None, min_crossrefs=2) equal the literals regenerated from the source on this run (Gen/C14Consts.lean)',
+    'C14_field_node': "well-formed database and entry: the template node field yields the reference value and FieldIsMissing with the message 'missing <name> in <key>' (format string regenerated from the source) exactly when no entry along the chain defines the name; in a context without bib_data it sees the entry's own fields and roles only; it agrees with templateField of C14_engines_agree up to the message",
+    'C14_u_inherits_nearest': 'NO hypothesis: for every key normaliser (the driver runs str.lower() of the interpreter, so keys / targets / field and role names may be any Unicode text), every database value, entry and name, the loop of the code with the empty visited set equals the reference walk of len(db)+1 entries through entries[crossref] (first entry that defines the name as field or role), and any longer walk gives the same (cycles never change the answer)',
+    'C14_u_own_missing_dangling': 'every key normaliser, database, entry, name: (1) [model wiring] an own field / role is returned whatever the database and the visited set; (2) without a database only the entry is asked; (3) missing iff no entry of the reference walk defines the name; (4) a crossref to a key the database lacks gives missing when the entry lacks the name, for every visited set',
+    'C14_u_visited_only_cuts': 'every key normaliser, database, entry, name, visited set: what a lookup finds with a visited set it finds with every subset of it, and a value returned with any visited set is the reference value (Unicode twin of C14_visited_only_cuts, no hypothesis)',
+    'C14_crossref_variable': 'well-formed database and entry: the BST variable crossref (interpreter Crossref.value) is the stored key of the reference parent, and missing exactly when there is no crossref field or the reference dangles (the value behind the oracle clause dangling)',
     'C14_python_names_neg': 'witness: a role (and the year the labels and sort keys read) inherited from the cross-referenced parent is seen by the BibTeX engine and not by the names node / label / sorting styles of the Python engine (finding C14-python-engine-reads-own-persons)',
 }
 NAMES = ['note', 'howpublished', 'author', 'zz']
@@ -32,8 +42,12 @@ RULE = ('exhaustive: every cross-reference graph on <=N entries (keys a, B, c; e
         'appended); chains and cycles of 300-1000 entries looked up from their first entry; the names / field nodes and the unsrt, plain '
         'and alpha styles of the Python engine on book / inproceedings / misc entries that inherit author, editor, year, title (each '
         'style compared with its own output on the database with the inherited values written out); plus seeded random longer '
-        'chains/cycles with mixed-case field names.  non-trivial = some entry has a crossref; distinct by case JSON' % (NAMES,))
-TRUSTED = ['str.lower is ASCII in the model', "person names are of the form 'Last, First' so that str(Person(name)) == name (name splitting is C04)",
+        'chains/cycles with mixed-case field names; the methods _find_crossref_entry / _find_field / _find_crossref_field / '
+        '_find_person_field called one by one with explicit visited sets (every graph on 2 entries x 10 visited sets, ASCII; and on '
+        'databases with non-ASCII keys, targets, field and role names: every pair of spellings of 10 orbits); the template node field '
+        'evaluated directly with / without bib_data in the context, raw and through Text.from_latex, with the FieldIsMissing message, '
+        'and format_entries with / without bib_data.  non-trivial = some entry has a crossref; distinct by case JSON' % (NAMES,))
+TRUSTED = ['str.lower is ASCII in the model of the ops that read .bib text or compose with the C05 database model (findfield, findfield_api, findvisited, findchain, fieldnode, pystyles); the op findvisited_u runs the same lookup methods over the Unicode containers with the whole-string str.lower() of the interpreter (lowerPy, tables regenerated)', "person names are of the form 'Last, First' so that str(Person(name)) == name (name splitting is C04)",
            'the Python engine is observed through the plain-text rendering of the unsrt misc template: the value of note / howpublished '
            'is recognised by a token unique to (entry, field); an empty value shows no token',
            'the Python styles (unsrt, plain, alpha) are not modelled: what they must show for an entry that inherits is what they show for '
@@ -211,8 +225,125 @@ def _api_direct(file, names):
         return k, k
 
 
+def _guard(f):
+    """one call of a lookup method: value, None = KeyError, INTERNAL:<kind>, or NO_TERMINATION"""
+    if _STATE['timed_out']:
+        return SKIPPED
+    try:
+        with _cpu_limit(0.5 if _STATE['count'] < 3 else 0.05):
+            return f()
+    except KeyError:
+        return None
+    except _NoTermination:
+        _STATE['timed_out'] = True
+        _STATE['count'] += 1
+        return NO_TERMINATION
+    except Exception as e:  # noqa
+        return compat.pybtex_error_kind(e)
+
+
+def _impl_visited(case):
+    """the three lookup methods with an explicit visited set (function-level: _find_crossref_entry, _find_field,
+    _find_crossref_field, _find_person_field), database built with add_entry"""
+    from pybtex import errors
+    from pybtex.database import BibliographyData, Entry, Person
+    names = case['names']
+    vis = frozenset(case['visited'])
+    try:
+        bib = BibliographyData()
+        with errors.capture() as errs:
+            for e in case['file']:
+                bib.add_entry(e['key'], Entry(e['type'], fields=[(n, v) for n, v in e['fields']],
+                                              persons=[(r, [Person(nm) for nm in ns]) for r, ns in e['persons']]))
+        entries = list(bib.entries.values())
+        repeated = [str(x.args[0])[len('repeated bibliography entry: '):] if str(x.args[0]).startswith('repeated bibliography entry: ')
+                    else compat.pybtex_error_kind(x) for x in errs]
+    except Exception as e:  # noqa
+        k = compat.pybtex_error_kind(e)
+        return {k_: k for k_ in ('step', 'step_nodb', 'field', 'field_nodb', 'xfield', 'person')}
+
+    def step(e, b):
+        def f():
+            p, v = e._find_crossref_entry(names[0], b, vis)
+            return [p.key, sorted(set(v))]
+        return _guard(f)
+
+    extra = {'repeated': repeated} if case['op'] == 'findvisited_u' else {}
+    return {**extra, 'step': [[e.key, step(e, bib)] for e in entries],
+            'step_nodb': [[e.key, step(e, None)] for e in entries],
+            'field': [[e.key, [_guard(lambda: e._find_field(n, bib, vis)) for n in names]] for e in entries],
+            'field_nodb': [[e.key, [_guard(lambda: e._find_field(n, None, vis)) for n in names]] for e in entries],
+            'xfield': [[e.key, [_guard(lambda: e._find_crossref_field(n, bib, vis)) for n in names]] for e in entries],
+            'person': [[e.key, [_guard(lambda: e._find_person_field(n)) for n in names]] for e in entries]}
+
+
+def _impl_fieldnode(case):
+    """the template node `field` evaluated directly: raw and through Text.from_latex, in a context with the database, without the
+    key bib_data and with bib_data None; and BaseStyle.format_entries(entries, bib_data) / format_entries(entries) of unsrt"""
+    from pybtex import errors
+    from pybtex.database import parse_string
+    from pybtex.style.template import field, FieldIsMissing
+    from pybtex.backends.plaintext import Backend
+    names = case['names']
+    text = dbcommon.bib_text(case['file'])
+    try:
+        with errors.capture():
+            bib = parse_string(text, _plugins()[0])
+        entries = list(bib.entries.values())
+    except Exception as e:  # noqa
+        k = compat.pybtex_error_kind(e)
+        return {k_: k for k_ in ('node_db', 'node_db_text', 'node_nodb', 'node_none', 'entries_db', 'entries_nodb')}
+
+    def node(e, n, ctx, raw):
+        def f():
+            try:
+                v = field(n, raw=raw).format_data(ctx)
+                return v if raw else str(v)
+            except FieldIsMissing as ex:
+                return {'missing': str(ex)}
+        return _guard(f)
+
+    def rows(mk, raw=True):
+        return [[e.key, [node(e, n, mk(e), raw) for n in names]] for e in entries]
+
+    def styled(*args):
+        def f():
+            _p, style, kw = _plugins()
+            st = style(**{k: v for k, v in kw.items() if k != 'bib_format'})
+            toks = tokens(case['file'])
+            out = []
+            for fe in st.format_entries(entries, *args):
+                body = fe.text.render(Backend())
+                vals = []
+                for n in PY_NAMES:
+                    found = sorted(v for v in toks[n] if v in body)
+                    vals.append(None if not found else found[0] if len(found) == 1 else 'AMBIGUOUS:%r' % (found,))
+                out.append([fe.key, vals])
+            return out
+        if _STATE['timed_out']:
+            return SKIPPED
+        try:
+            with _cpu_limit(10.0):
+                return f()
+        except _NoTermination:
+            _STATE['timed_out'] = True
+            return NO_TERMINATION
+        except Exception as e:  # noqa
+            return compat.pybtex_error_kind(e)
+
+    return {'node_db': rows(lambda e: {'entry': e, 'bib_data': bib}),
+            'node_db_text': rows(lambda e: {'entry': e, 'bib_data': bib}, raw=False),
+            'node_nodb': rows(lambda e: {'entry': e}),
+            'node_none': rows(lambda e: {'entry': e, 'bib_data': None}),
+            'entries_db': styled(bib), 'entries_nodb': styled()}
+
+
 def impl(case):
     _STATE['timed_out'] = False
+    if case['op'] in ('findvisited', 'findvisited_u'):
+        return _impl_visited(case)
+    if case['op'] == 'fieldnode':
+        return _impl_fieldnode(case)
     if case['op'] == 'findfield_api':
         api, nodb = _api_direct(case['file'], case['names'])
         return {'api': api, 'api_nodb': nodb}
@@ -438,6 +569,23 @@ def _noempty(rows):
 
 def model_out(case, reply):
     out = dict(reply['out'])
+    if case['op'] == 'fieldnode':
+        idx = [case['names'].index(n) for n in PY_NAMES]
+
+        def toks(rows):
+            if not isinstance(rows, list):
+                return rows
+            return [[k, [None if (isinstance(vals[i], dict) or vals[i] == '') else vals[i] for i in idx]] for k, vals in rows]
+        out['node_db_text'] = out['node_db']
+        out['node_none'] = out['node_nodb']
+        out['entries_db'] = toks(out['node_db'])
+        out['entries_nodb'] = toks(out['node_nodb'])
+        return out
+    if case['op'] in ('findvisited', 'findvisited_u'):
+        for side in ('step', 'step_nodb'):
+            if isinstance(out[side], list):
+                out[side] = [[k, None if r is None else [r[0], sorted(set(r[1]))]] for k, r in out[side]]
+        return out
     if case['op'] in ('findfield_api', 'pystyles'):
         return out
     idx = [case['names'].index(n) for n in PY_NAMES]
@@ -495,6 +643,26 @@ def valid_case(case):
             if x is not None and x.lower() not in keys[i + 1:]:     # references point down the file (filtered reading keeps the parents)
                 return False
         return True
+    if case.get('op') == 'fieldnode':
+        return set(case) == {'op', 'file', 'names'} and case['names'] == NAMES and _file_ok(case)
+    if case.get('op') == 'findvisited_u':
+        def strs(l):
+            return isinstance(l, list) and all(isinstance(x, str) for x in l)
+        if set(case) != {'op', 'file', 'names', 'visited'} or not strs(case['names']) or not strs(case['visited']) or not isinstance(case['file'], list):
+            return False
+        for e in case['file']:
+            if not (isinstance(e, dict) and set(e) == {'key', 'type', 'fields', 'persons'} and isinstance(e['key'], str) and e['type'] == 'misc'):
+                return False
+            if not (isinstance(e['fields'], list) and all(isinstance(f, list) and len(f) == 2 and strs(f) for f in e['fields'])):
+                return False
+            if not (isinstance(e['persons'], list) and all(isinstance(r, list) and len(r) == 2 and isinstance(r[0], str) and strs(r[1])
+                                                           and all(re.match(r'^[A-Z][a-z]+, [A-Z][a-z]+$', nm) for nm in r[1]) for r in e['persons'])):
+                return False
+        return True
+    if case.get('op') == 'findvisited':
+        return (set(case) == {'op', 'file', 'names', 'visited'} and case['names'] == API_NAMES
+                and isinstance(case['visited'], list) and all(isinstance(v, str) for v in case['visited'])
+                and dbcommon.valid_file(case['file'], allow_overlap=True, allow_empty=True))
     if set(case) != {'op', 'file', 'names'} or case['op'] not in ('findfield', 'findfield_api', 'findchain'):
         return False
     if case['op'] == 'findfield_api':
@@ -633,7 +801,96 @@ def _oracle_styles(case, impl_out, reply):
     return fails
 
 
+def _oracle_visited(case, impl_out, reply):
+    """what the PROPERTY says about the methods called with a visited set: an own field / role always wins, whatever has been
+    visited; a value returned is the value of the nearest definer (C14_visited_only_cuts: a visited set can make the answer
+    missing, never different); the call returns; with nothing visited the answer is the reference lookup.  What the step function
+    returns is compared with the model only."""
+    spec = reply['spec']
+    names = case['names']
+    want = {k.lower(): vals for k, vals in spec['lookup']}
+    own = {k.lower(): vals for k, vals in spec['own']}
+    fails = []
+    for side in ('step', 'step_nodb', 'field', 'field_nodb', 'xfield', 'person'):
+        rows = impl_out[side]
+        if isinstance(rows, str):
+            fails.append('never_crash: building the database for %s raised %s' % (side, rows))
+            continue
+        for key, vals in rows:
+            for got in (vals if side not in ('step', 'step_nodb') else [vals]):
+                if isinstance(got, str) and got.startswith('INTERNAL:'):
+                    fails.append('terminates: %s of entry %r with visited %r gives %r' % (side, key, case['visited'], got))
+    if isinstance(impl_out['field'], list):
+        for key, vals in impl_out['field']:
+            k = key.lower()
+            if [x['key'].lower() for x in case['file']].count(k) != 1:
+                continue
+            for i, got in enumerate(vals):
+                if got == SKIPPED or (isinstance(got, str) and got.startswith('INTERNAL:')):
+                    continue
+                if own[k][i] is not None and got != own[k][i]:
+                    e = [e for e in case['file'] if e['key'].lower() == k][0]
+                    is_field = any(n.lower() == names[i].lower() for n, _ in e['fields'])
+                    fails.append('%s: _find_field(%r, bib_data, visited=%r) in entry %r gives %r, the entry itself defines %r' % (
+                        'own_field_wins' if is_field else 'person_roles_joined', names[i], case['visited'], key, got, own[k][i]))
+                elif got is not None and got != want[k][i]:
+                    fails.append('inherits_nearest: _find_field(%r, bib_data, visited=%r) in entry %r gives %r, the nearest definer has %r' % (
+                        names[i], case['visited'], key, got, want[k][i]))
+                elif not case['visited'] and got != want[k][i]:
+                    fails.append('%s: api lookup of %r in entry %r gives %r, the property demands %r' % (
+                        'missing_iff' if want[k][i] is None else 'inherits_nearest', names[i], key, got, want[k][i]))
+    if isinstance(impl_out['field_nodb'], list):
+        for key, vals in impl_out['field_nodb']:
+            k = key.lower()
+            for i, got in enumerate(vals):
+                if got != own[k][i] and got != SKIPPED and [x['key'].lower() for x in case['file']].count(k) == 1:
+                    fails.append('own_field_wins: _find_field(%r) without bib_data (visited=%r) in entry %r gives %r, the entry itself defines %r' % (
+                        names[i], case['visited'], key, got, own[k][i]))
+    return fails
+
+
+def _oracle_fieldnode(case, impl_out, reply):
+    """engines_agree at the node itself: with the database in the context the field node (raw or not) and format_entries show
+    the reference lookup, FieldIsMissing exactly when it is missing.  What is seen WITHOUT a database, and the message text, are
+    compared with the model only."""
+    spec = reply['spec']
+    names = case['names']
+    want = {k.lower(): vals for k, vals in spec['lookup']}
+    fails = []
+    for side in ('node_db', 'node_db_text', 'node_nodb', 'node_none', 'entries_db', 'entries_nodb'):
+        rows = impl_out[side]
+        if rows == SKIPPED:
+            continue
+        if isinstance(rows, str):
+            fails.append('%s: the %s observation raised %s' % ('terminates' if ('Recursion' in rows or 'NoTermination' in rows) else 'never_crash', side, rows))
+            continue
+        for key, vals in rows:
+            for got in vals:
+                if isinstance(got, str) and got.startswith('INTERNAL:'):
+                    fails.append('%s: %s of entry %r gives %r' % ('terminates' if ('Recursion' in got or 'NoTermination' in got) else 'never_crash', side, key, got))
+    for side, cols, view in (('node_db', names, lambda v: v), ('node_db_text', names, lambda v: v), ('entries_db', PY_NAMES, _tokview)):
+        rows = impl_out[side]
+        if not isinstance(rows, list):
+            continue
+        if [k.lower() for k, _ in rows] != [k.lower() for k, _ in spec['lookup']]:
+            fails.append('engines_agree: %s shows entries %r, the database has %r' % (side, [k for k, _ in rows], [k for k, _ in spec['lookup']]))
+            continue
+        for key, vals in rows:
+            for n, got in zip(cols, vals):
+                exp = view(want[key.lower()][names.index(n)])
+                g = None if isinstance(got, dict) else got
+                if isinstance(g, str) and (g == SKIPPED or g.startswith('INTERNAL:')):
+                    continue
+                if g != exp:
+                    fails.append('engines_agree: the field node of the Python engine (%s) gives %r for %r of entry %r, the property demands %r' % (side, got, n, key, exp))
+    return fails
+
+
 def oracle(case, impl_out, reply):
+    if case['op'] == 'fieldnode':
+        return _oracle_fieldnode(case, impl_out, reply)
+    if case['op'] in ('findvisited', 'findvisited_u'):
+        return _oracle_visited(case, impl_out, reply)
     if case['op'] == 'findchain':
         return _oracle_chain(case, impl_out, reply)
     if case['op'] == 'pystyles':
@@ -777,6 +1034,41 @@ def buckets(case, impl_out):
             if 'error' in run:
                 b.append('%s_%s' % (st, run['error']))
         return b
+    if case['op'] == 'fieldnode':
+        nd = impl_out.get('node_db')
+        if isinstance(nd, list):
+            flat = [v for _k, vals in nd for v in vals]
+            if any(isinstance(v, dict) for v in flat):
+                b.append('field_is_missing')
+            nn = impl_out.get('node_nodb')
+            if nn != nd:
+                b.append('database_in_context_matters')
+        return b
+    if case['op'] in ('findvisited', 'findvisited_u'):
+        if case['op'] == 'findvisited_u':
+            keys = [e['key'] for e in file]
+            for e in file:
+                x = _xref(e)
+                if x is not None and any(x != k and x.lower() == k.lower() and not (x + k).isascii() for k in keys):
+                    b.append('crossref_matches_by_non_ascii_lowering')
+                if x is not None and any(x.lower() != k.lower() and x.casefold() == k.casefold() for k in keys):
+                    b.append('crossref_differs_only_by_casefold')
+            if impl_out.get('repeated'):
+                b.append('repeated_key')
+            if any(not n.isascii() for e in file for n, _v in e['fields']):
+                b.append('non_ascii_field_name')
+        b.append('visited=%d' % len(case['visited']))
+        st = impl_out.get('step')
+        if isinstance(st, list):
+            low = {e['key'].lower() for e in file}
+            for e, (_k, r) in zip(file, st):
+                x = _xref(e)
+                b.append('step_ok' if r is not None else 'step_no_crossref' if x is None else
+                         'step_visited' if x.lower() in case['visited'] else 'step_dangling' if x.lower() not in low else 'step_other')
+        fl, wl = impl_out.get('field'), None
+        if isinstance(fl, list) and any(v is None for _k, vals in fl for v in vals):
+            b.append('some_missing')
+        return sorted(set(b))
     if case['op'] == 'findfield_api' and any({n.lower() for n, _ in e['fields']} & {r.lower() for r, _ in e['persons']} for e in file):
         b.append('field_and_role_same_name')
     if any(not v for e in file for _n, v in e['fields']):
@@ -888,6 +1180,96 @@ def _api_cases(n):
                 file.append({'key': k, 'type': 'misc', 'fields': fields, 'persons': [['Author', AUTH[k]]] if ra else []})
             cases.append({'op': 'findfield_api', 'file': file, 'names': API_NAMES})
     return cases
+
+
+VISITED_SETS = [[], ['a'], ['b'], ['zz'], ['a', 'b'], ['a', 'zz'], ['b', 'zz'], ['a', 'b', 'zz'], ['B'], ['A', 'b']]
+
+
+def _visited_cases():
+    """every graph on 2 entries (a, B) x {field note, role author} per entry (entry a may also have a FIELD author) x a visited
+    set over the lower-cased keys, the dangling target and spellings that can never match (upper case)"""
+    keys, graphs = _graphs(2)
+    cases = []
+    for g in graphs:
+        for a in itertools.product(itertools.product([False, True], [False, True]), repeat=2):
+            for fa in (False, True):
+                file = []
+                for k, x, (fn, ra) in zip(keys, g, a):
+                    fields = ([['Author', 'Fa' + k]] if fa and k == 'a' else []) + ([['crossref', x]] if x is not None else []) + ([['note', 'Nn' + k]] if fn else [])
+                    file.append({'key': k, 'type': 'misc', 'fields': fields, 'persons': [['author', AUTH[k]]] if ra else []})
+                if fa and not a[0][1]:
+                    continue      # the field author of a is only interesting next to the role
+                for vis in VISITED_SETS:
+                    cases.append({'op': 'findvisited', 'file': file, 'names': API_NAMES, 'visited': vis})
+    return cases
+
+
+def _random_visited_case(rng):
+    c = _random_case(rng)
+    for e in c['file']:
+        e['fields'] = [[n if n.lower() != 'howpublished' else 'Zz', v] for n, v in e['fields']]
+    keys = [e['key'].lower() for e in c['file']]
+    pool = keys + ['nowhere'] + [k.upper() for k in keys[:2]]
+    vis = sorted({rng.choice(pool) for _ in range(rng.randint(0, 4))}) if rng.random() < 0.8 else []
+    return {'op': 'findvisited', 'file': c['file'], 'names': API_NAMES, 'visited': vis}
+
+
+ORBITS = [['\u00c9', '\u00e9', 'E', 'e\u0301'],                      # É é E e+combining acute
+          ['\u039f\u0394\u039f\u03a3', '\u03bf\u03b4\u03bf\u03c2', '\u03bf\u03b4\u03bf\u03c3', '\u039f\u0394\u039f\u03c3'],   # ΟΔΟΣ οδος οδοσ ΟΔΟσ (final sigma)
+          ['\u0130', 'i\u0307', 'i', 'I', '\u0131'],                      # İ i+dot i I ı
+          ['\u1e9e', '\u00df', 'ss', 'SS'],                               # ẞ ß ss SS
+          ['\u212a', 'k', 'K'],                                            # KELVIN SIGN
+          ['\u01c5', '\u01c6', '\u01c4'],                                 # ǅ ǆ Ǆ
+          ['Stra\u00dfe', 'STRASSE', 'stra\u00dfe', 'STRA\u1e9eE'],
+          ['\u03a3', '\u03c3', '\u03c2'],                                 # Σ σ ς (single letters: no final-sigma context)
+          ['A\u03a3', 'a\u03c2', 'a\u03c3', 'A\u03a3.'],                   # AΣ -> aς
+          ['', ' ', '*']]
+U_NAMES = ['n\u00f6te', 'N\u00d6TE', 'author', '\u00c9diteur', 'zz']
+U_FIELD_SPELLINGS = {'note': ['n\u00f6te', 'N\u00d6TE', 'No\u0308te', 'N\u00f6te'], 'crossref': ['crossref', 'CROSSREF', 'Crossref', 'cro\u017fsref', 'CROSSREF\u0307'],
+                     'role': ['\u00c9diteur', '\u00e9diteur', '\u00c9DITEUR', 'author', 'AUTHOR']}
+
+
+def _u_entry(key, xref, xname='crossref', note=None, note_name='n\u00f6te', role=None):
+    fields = ([[xname, xref]] if xref is not None else []) + ([[note_name, note]] if note is not None else [])
+    return {'key': key, 'type': 'misc', 'fields': fields, 'persons': [[role, ['Ee, One', 'Ee, Two']]] if role else []}
+
+
+def _unicode_cases():
+    """child -> (spelling s of a key) with the parent stored under spelling t, for every pair (s, t) of every orbit of spellings
+    that str.lower() does or does not identify; then the same pair as a two-cycle; the field names crossref / nöte and the role in
+    every spelling; visited empty, the lower-cased target, the target as written"""
+    cases = []
+    for orbit in ORBITS:
+        for sp in orbit:
+            for t in orbit:
+                for vis in ([], [t.lower()], [t], [sp.lower()]):
+                    file = [_u_entry('child', sp), _u_entry(t, None, note='Nnp', role='\u00c9diteur')]
+                    cases.append({'op': 'findvisited_u', 'file': file, 'names': U_NAMES, 'visited': vis})
+                file = [_u_entry(sp, t, note=None), _u_entry(t, sp, note='Nnq')]      # two-cycle (or a repeated key)
+                cases.append({'op': 'findvisited_u', 'file': file, 'names': U_NAMES, 'visited': []})
+    for xn in U_FIELD_SPELLINGS['crossref']:
+        for nn in U_FIELD_SPELLINGS['note']:
+            for rn in U_FIELD_SPELLINGS['role']:
+                file = [_u_entry('child', 'P\u00c4R', xname=xn), _u_entry('p\u00e4r', None, note='Nnp', note_name=nn, role=rn)]
+                cases.append({'op': 'findvisited_u', 'file': file, 'names': U_NAMES, 'visited': []})
+    return cases
+
+
+def _random_unicode_case(rng):
+    n = rng.randint(1, 5)
+    orbits = [rng.choice(ORBITS[:-1]) for _ in range(n)]
+    keys = [rng.choice(o) for o in orbits]
+    file = []
+    for i in range(n):
+        r = rng.random()
+        j = rng.randrange(n)
+        x = None if r < 0.2 else rng.choice(orbits[j]) if r < 0.9 else 'nowhere'
+        file.append(_u_entry(keys[i], x, xname=rng.choice(U_FIELD_SPELLINGS['crossref'][:3] * 3 + U_FIELD_SPELLINGS['crossref'][3:]),
+                             note=('Nn' + LETTERS[i] * 2) if rng.random() < 0.4 else None, note_name=rng.choice(U_FIELD_SPELLINGS['note']),
+                             role=rng.choice(U_FIELD_SPELLINGS['role']) if rng.random() < 0.3 else None))
+    pool = [k.lower() for k in keys] + keys
+    vis = sorted({rng.choice(pool) for _ in range(rng.randint(0, 3))}) if rng.random() < 0.5 else []
+    return {'op': 'findvisited_u', 'file': file, 'names': U_NAMES, 'visited': vis}
 
 
 def _chain(n, field_at, closed, other_case=False):
@@ -1040,6 +1422,21 @@ def gen_cases(tier, rng, info):
     api = _api_cases(1) + _api_cases(2) + (_api_cases(3)[::7] if tier == 'thorough' else [])
     cases += api
     info['scope'] += '; entry API on databases built from Entry objects (field and role of one name possible, empty field values): %d cases' % len(api)
+    vis = _visited_cases()
+    cases += vis
+    info['scope'] += ('; the methods _find_crossref_entry / _find_field / _find_crossref_field / _find_person_field called with an explicit '
+                      'visited set (every graph on 2 entries x note / author role per entry (+ a field author) x %d visited sets): %d cases' % (len(VISITED_SETS), len(vis)))
+    uni = _unicode_cases()
+    cases += uni
+    info['scope'] += ('; the same methods on databases whose keys, cross-reference targets, field and role names are non-ASCII (every '
+                      'pair of spellings of %d orbits that str.lower() does / does not identify: final sigma, dotted I, sharp s, Kelvin '
+                      'sign, title-case digraphs, combining marks, long s in the field name): %d cases' % (len(ORBITS), len(uni)))
+    small = [c for n in (0, 1, 2) for c in _exhaustive(n)]
+    nodes = [dict(c, op='fieldnode') for c in (small[::3] if tier == 'quick' else small)]
+    cases += nodes
+    info['scope'] += ('; the template node field evaluated directly (raw and through Text.from_latex; context with the database, without '
+                      'the key bib_data, with bib_data None) and BaseStyle.format_entries with / without bib_data, on %s graphs '
+                      'on <=2 entries: %d cases' % ('every third of the' if tier == 'quick' else 'all', len(nodes)))
     chains = _chain_cases(tier)
     cases += chains
     info['scope'] += '; chains and cycles of %s entries looked up from the first entry: %d cases' % (
@@ -1054,6 +1451,12 @@ def gen_cases(tier, rng, info):
         cases.append(_random_case(rng))
     for _ in range(300 if tier == 'quick' else 6000):
         cases.append(_random_style_case(rng))
+    for _ in range(1500 if tier == 'quick' else 15000):
+        cases.append(_random_visited_case(rng))
+    for _ in range(500 if tier == 'quick' else 5000):
+        cases.append(dict(_random_case(rng), op='fieldnode'))
+    for _ in range(1500 if tier == 'quick' else 15000):
+        cases.append(_random_unicode_case(rng))
     # spread the slow cases (styles, long chains) evenly over the list: the work is handed to the workers in contiguous chunks
     slow = [c for c in cases if c['op'] in ('pystyles', 'findchain')]
     fast = [c for c in cases if c['op'] not in ('pystyles', 'findchain')]
@@ -1074,7 +1477,11 @@ LEVEL_TEXT = ('Machine-checked proofs (Lean 4) over an executable model of Entry
               'the field or role", for every graph.  Tied to the code by a correspondence check exhaustive over all graphs on <=2 entries '
               '(and a slice of 3) x all field assignments incl. empty values x all queries, observed through the entry API, a generated '
               '.bst and the unsrt style, with every entry or only the first one cited, on chains of up to 1000 entries, and through the '
-              'names / field nodes and the unsrt, plain, alpha styles.')
+              'names / field nodes and the unsrt, plain, alpha styles.  The code as written now (a loop around the step function '
+              '_find_crossref_entry) has its own model, proved equal to the recursive one for every visited set, tied method by method '
+              '(explicit visited sets); a twin over the Unicode containers (key normaliser a parameter, run with str.lower() of the '
+              'interpreter) is proved equal to a reference walk with no hypothesis at all and tied on non-ASCII keys / names; the '
+              'constants of the model are regenerated from the source (Gen/C14Consts.lean, C14_constants_match).')
 LEVEL_NOTE = ('Trusted: Lean kernel; axioms propext/Classical.choice/Quot.sound only; the hand-written model corresponds to the code only '
               'as far as the differential check explores; persons are modelled as already formatted strings (str(Person) is C04/C02); '
               'Text.from_latex and the templates are exercised, not modelled (values are plain tokens).  The Python engine shows person '
